@@ -264,7 +264,7 @@ Lemma UD_removal : forall st stp st0 r d th i rest,
   UDfull (st_log st0 d) (set_thr th (after_remove r ++ rest) (threads st) ++ []).
 Proof.
   intros st stp st0 r d th i rest [(G1 & G2 & G2n & G3 & G4 & G5 & P1 & P2) G0] HM Et Es Ea En Hl Hi1 Hi2.
-  assert (HQ : forall p, (forall s, p (IClose s) = false) -> (forall t, p (ICancel t) = false) ->
+  assert (HQ : forall p, (forall l, p (ICloseLoop l) = false) -> (forall t, p (ICancel t) = false) ->
              cnt p (set_thr th (after_remove r ++ rest) (threads st) ++ []) + (if p i then 1 else 0) = cnt p (threads st)).
   { intros p H1 H2. rewrite cnt_app. pose proof (cnt_set_thr p th i rest (after_remove r) (threads st) Hl) as Hc.
     assert (Hz : cntl p (after_remove r) = 0) by (unfold after_remove; rewrite cntl_app, !cntl_map_zero; auto).
@@ -436,18 +436,17 @@ Section DelivStep.
     }
     1: { (* IUpdFilter: the spawned list is duplicate free *)
       destruct (eval_filter_sub _ _ _ _ _ _ Eflt) as (Hsub & Hnd & _).
-      hq HQ bad_spawn. assert (Hn : nodup_b pass = true) by (apply nodup_b_true, Hnd, (rg_nd_tsubs _ HR)).
-      rewrite Hn in Hq. simpl in Hq. lia.
+      assert (Hn : nodup_b pass = true) by (apply nodup_b_true, Hnd, (rg_nd_tsubs _ HR)).
+      hq HQ bad_spawn; rewrite Hn in Hq; simpl in Hq; lia.
     }
     1: { (* IUpdFilter: every accepted subscriber belongs to this trigger *)
       destruct (eval_filter_sub _ _ _ _ _ _ Eflt) as (Hsub & _ & _).
       assert (H0 : cnt (bad_tid (st_log st [GAccept t e pass])) (threads st) = 0)
         by (pose proof (bad_tid_mono st (st_log st [GAccept t e pass]) (threads st) ltac:(intros sq Hsq; simpl; auto)); lia).
-      hq HQ (bad_tid (st_log st [GAccept t e pass])).
       assert (Hf : forallb (fun s0 => (s_tid (subs st s0) =? t) && mem s0 (allsubs st)) pass = true).
       { apply forallb_forall. intros x Hx. apply Hsub in Hx. destruct (rg_tsubs _ HR _ _ Hx) as (_ & Hb & ->).
         rewrite Nat.eqb_refl. simpl. apply mem_In. apply (rg_byid _ HR x Hb). }
-      rewrite Hf in Hq. simpl in Hq. lia.
+      hq HQ (bad_tid (st_log st [GAccept t e pass])); rewrite Hf in Hq; simpl in Hq; lia.
     }
     (* ISpawn: the fan-out starts; no previous children, the spawned list is clean *)
     1-6: (set (isp := fun j => match j with ISpawn t' _ _ => t' =? t | _ => false end);
@@ -953,12 +952,12 @@ Section DelivStep2.
         exists [e]. unfold chron in *. simpl. rewrite acc_app, del_app, mis_app. simpl. rewrite Em, Eb. simpl.
         rewrite !app_nil_r in *. split; [rewrite H1; rewrite <- !app_assoc; reflexivity|]. split; [exact H2|].
         right. exists e. split; auto. split.
-        + hq HQ (nfa ev_bad s0). rewrite Em, Eb in Hq. simpl in Hq. lia.
-        + hq HQ (nfl ev_bad s0 e). rewrite Em, Eb, Nat.eqb_refl in Hq. simpl in Hq.
-          pose proof (nfl_le_nfa ev_bad (threads st) s0 e). lia.
+        + hq HQ (nfa ev_bad s0); rewrite Em, Eb in Hq; simpl in Hq; lia.
+        + pose proof (nfl_le_nfa ev_bad (threads st) s0 e).
+          hq HQ (nfl ev_bad s0 e); rewrite Em, Eb, Nat.eqb_refl in Hq; simpl in Hq; lia.
       - eapply (DO_keep ev_bad) with (a := [GAccept t e pass]); [exact HD0|reflexivity|simpl; rewrite Em; reflexivity|reflexivity|reflexivity|auto| |].
-        + hq HQ (nfa ev_bad s0). rewrite Em in Hq. simpl in Hq. lia.
-        + intros e0. hq HQ (nfl ev_bad s0 e0). rewrite Em in Hq. simpl in Hq. lia. }
+        + hq HQ (nfa ev_bad s0); rewrite Em in Hq; simpl in Hq; lia.
+        + intros e0. hq HQ (nfl ev_bad s0 e0); rewrite Em in Hq; simpl in Hq; lia. }
     1: { (* ISpawn: removed subscribers miss the event, the others get a child *)
       destruct HU as [(G1 & G2 & G2n & G3 & G4 & G5 & P1 & P2) G0].
       assert (Hnd : NoDup l)
@@ -1050,7 +1049,7 @@ Section DelivStep2.
         destruct HD0 as (tail & H1 & H2 & [[-> Hc]|(e' & -> & Hc & Hce)]); [exfalso; pose proof (nfl_le_nfa ev_bad (threads st) s0 e); lia|].
         assert (e = e') by (eapply (nfl_unique ev_bad (threads st) s0); lia). subst e'.
         exists []. unfold chron in *. simpl. rewrite !acc_app, !del_app, !mis_app. simpl. rewrite Nat.eqb_refl, Eb. simpl.
-        rewrite !app_nil_r in *. split; [rewrite H1; rewrite <- ?app_assoc; reflexivity|]. split; [intros _; exact Ec|].
+        rewrite !app_nil_r in *. split; [rewrite H1; rewrite <- ?app_assoc; reflexivity|]. split; [intros _; assumption|].
         left. split; auto. hq HQ (nfa ev_bad s0). rewrite Nat.eqb_refl, Eb in Hq. simpl in Hq. lia.
       - eapply (DO_keep ev_bad) with (a := [GMissed s e]); [exact HD0|reflexivity|reflexivity|reflexivity| |auto| |].
         + simpl. destruct (Nat.eqb_spec s s0); [congruence|reflexivity].
@@ -1065,7 +1064,7 @@ Section DelivStep2.
         exists []. unfold chron in *. simpl. rewrite !acc_app, !del_app, !mis_app. simpl. rewrite Nat.eqb_refl. simpl.
         rewrite Hm0 in *. rewrite !app_nil_r in *. simpl in *. split; [rewrite H1; rewrite <- ?app_assoc; reflexivity|]. split; [intros Hx; congruence|].
         left. split; auto. hq HQ (nfa ev_bad s0). rewrite Nat.eqb_refl, Eb in Hq. simpl in Hq. lia.
-      - eapply (DO_keep ev_bad); [exact HD0|simpl; match goal with |- ?a :: ?b :: log _ = _ => instantiate (1 := [a; b]); reflexivity end
+      - eapply (DO_keep ev_bad); [exact HD0|simpl; match goal with |- ?a :: log _ = _ => instantiate (1 := [a]); reflexivity end
           |reflexivity|simpl; unfold del, writes_of; simpl; destruct (Nat.eqb_spec s s0); [congruence|reflexivity]|reflexivity|auto| |].
         + hq HQ (nfa ev_bad s0). destruct (Nat.eqb_spec s s0); [congruence|]. simpl in Hq. lia.
         + intros e0. hq HQ (nfl ev_bad s0 e0). destruct (Nat.eqb_spec s s0); [congruence|]. simpl in Hq. lia. }
@@ -1078,7 +1077,7 @@ Section DelivStep2.
         exists []. unfold chron in *. simpl. rewrite !acc_app, !del_app, !mis_app. simpl. rewrite Nat.eqb_refl. simpl.
         rewrite Hm0 in *. rewrite !app_nil_r in *. simpl in *. split; [rewrite H1; rewrite <- ?app_assoc; reflexivity|]. split; [intros Hx; congruence|].
         left. split; auto. hq HQ (nfa ev_bad s0). rewrite Nat.eqb_refl, Eb in Hq. simpl in Hq. lia.
-      - eapply (DO_keep ev_bad); [exact HD0|simpl; match goal with |- ?a :: ?b :: log _ = _ => instantiate (1 := [a; b]); reflexivity end
+      - eapply (DO_keep ev_bad); [exact HD0|simpl; match goal with |- ?a :: log _ = _ => instantiate (1 := [a]); reflexivity end
           |reflexivity|simpl; unfold del, writes_of; simpl; destruct (Nat.eqb_spec s s0); [congruence|reflexivity]|reflexivity|auto| |].
         + hq HQ (nfa ev_bad s0). destruct (Nat.eqb_spec s s0); [congruence|]. simpl in Hq. lia.
         + intros e0. hq HQ (nfl ev_bad s0 e0). destruct (Nat.eqb_spec s s0); [congruence|]. simpl in Hq. lia. }
@@ -1091,11 +1090,14 @@ Section DelivStep2.
         exists []. unfold chron in *. simpl. rewrite !acc_app, !del_app, !mis_app. simpl. rewrite Nat.eqb_refl. simpl.
         rewrite Hm0 in *. rewrite !app_nil_r in *. simpl in *. split; [rewrite H1; rewrite <- ?app_assoc; reflexivity|]. split; [intros Hx; congruence|].
         left. split; auto. hq HQ (nfa ev_bad s0). rewrite Nat.eqb_refl, Eb in Hq. simpl in Hq. lia.
-      - eapply (DO_keep ev_bad); [exact HD0|simpl; match goal with |- ?a :: ?b :: log _ = _ => instantiate (1 := [a; b]); reflexivity end
+      - eapply (DO_keep ev_bad); [exact HD0|simpl; match goal with |- ?a :: log _ = _ => instantiate (1 := [a]); reflexivity end
           |reflexivity|simpl; unfold del, writes_of; simpl; destruct (Nat.eqb_spec s s0); [congruence|reflexivity]|reflexivity|auto| |].
         + hq HQ (nfa ev_bad s0). destruct (Nat.eqb_spec s s0); [congruence|]. simpl in Hq. lia.
         + intros e0. hq HQ (nfl ev_bad s0 e0). destruct (Nat.eqb_spec s s0); [congruence|]. simpl in Hq. lia. }
     1: { destruct c; (eapply (DO_keep ev_bad); [exact HD0|simpl; match goal with |- ?a :: log _ = _ => instantiate (1 := [a]); reflexivity end
+           |reflexivity|reflexivity|reflexivity|auto|hq HQ (nfa ev_bad s0); lia|intros e0; hq HQ (nfl ev_bad s0 e0); lia]). }
+    (* IWCont: the second call of a writer region is never a Write *)
+    1: { destruct w; (eapply (DO_keep ev_bad); [exact HD0|simpl; match goal with |- ?a :: ?b :: log _ = _ => instantiate (1 := [a; b]); reflexivity end
            |reflexivity|reflexivity|reflexivity|auto|hq HQ (nfa ev_bad s0); lia|intros e0; hq HQ (nfl ev_bad s0 e0); lia]). }
   Qed.
 End DelivStep2.
@@ -1185,15 +1187,15 @@ Section DelivMain.
     (forall q, (q = bad_spawn \/ q = kwbad ev_bad \/ (exists t, q = is_unlock t) \/ (exists t s, q = is_kiddone t s) \/
                 (exists t, q = is_wait t) \/ (exists s, q = nfa ev_bad s) \/ (exists s e, q = nfl ev_bad s e) \/ (exists S, q = bad_tid S)) -> cntl q p = 0) ->
     cntl (hl st) p = 0 -> (forall t, PT t p = true) -> (forall t s, PK t s p = true) ->
-    (forall s, cntl (is_close s) p = 0) ->
+    (forall s, cntl (is_close s) p = 0 /\ cntl (is_wcont s) p = 0) ->
     DI st'.
   Proof.
     intros st n p st' (HR & HC & HT & [HU G0] & HH & HK & HD & HA) Hsp Hq Hh Hpt Hpk Hcl.
     apply spawn_spec in Hsp. destruct Hsp as [->|[_ ->]]; [exact (conj HR (conj HC (conj HT (conj (conj HU G0) (conj HH (conj HK (conj HD HA)))))))|].
     destruct HU as (G1 & G2 & G2n & G3 & G4 & G5 & P1 & P2).
     unfold DI. split; [eapply RG_ext; [|exact HR]; reg_eq_tac|].
-    split; [eapply WC_neutral; [exact HC|instantiate (1 := []); reflexivity|reflexivity|intros; simpl; auto|simpl; auto]|].
-    split; [intros s; simpl; rewrite cnt_app; simpl; rewrite Hcl; specialize (HT s); lia|].
+    split; [eapply WC_neutral; [exact HC|instantiate (1 := []); reflexivity|reflexivity|intros; simpl; auto|simpl; auto|reflexivity]|].
+    split; [intros s; simpl; rewrite !cnt_app; simpl; destruct (Hcl s) as [-> ->]; destruct (HT s); split; lia|].
     split.
     { split; [|exact G0]. unfold UDp. simpl. repeat split; intros; rewrite ?cnt_app; simpl.
       - rewrite Hq by (right; right; left; eauto). rewrite G1. lia.
@@ -1218,13 +1220,13 @@ Section DelivMain.
   Proof.
     intros st a st' HDI Hs. pose proof HDI as (HR & HC & HT & HU & HH & HK & HD & HA). pose proof Hs as Hs0.
     destruct a; simpl in Hs.
-    - eapply DI_spawn; [exact HDI|exact Hs| | | | |]; intros; try (destruct op; reflexivity).
+    - eapply DI_spawn; [exact HDI|exact Hs| | | | |]; intros; try (destruct op; reflexivity); try (destruct op; split; reflexivity).
       destruct H as [->|[->|[[t ->]|[[t [s ->]]|[[t ->]|[[s ->]|[[s [e ->]]|[S ->]]]]]]]]; destruct op; reflexivity.
     - destruct (Nat.ltb_spec t (ntrig st)); [|discriminate].
-      eapply DI_spawn; [exact HDI|exact Hs| | | | |]; intros; try (destruct op; reflexivity).
+      eapply DI_spawn; [exact HDI|exact Hs| | | | |]; intros; try (destruct op; reflexivity); try (destruct op; split; reflexivity).
       + destruct H0 as [->|[->|[[t0 ->]|[[t0 [s ->]]|[[t0 ->]|[[s ->]|[[s [e ->]]|[S ->]]]]]]]]; destruct op; reflexivity.
       + unfold uprog, cntl. simpl. rewrite (proj2 (Nat.leb_gt (ntrig st) t)) by lia. destruct op; reflexivity.
-    - eapply DI_spawn; [exact HDI|exact Hs| | | | |]; intros; try reflexivity.
+    - eapply DI_spawn; [exact HDI|exact Hs| | | | |]; intros; try reflexivity; try (split; reflexivity).
       destruct H as [->|[->|[[t ->]|[[t [s ->]]|[[t ->]|[[s ->]|[[s [e ->]]|[S ->]]]]]]]]; reflexivity.
     - apply step_AStep in Hs0. destruct Hs0 as (i & rest & st1 & push & sp & Hl & He & Heq).
       assert (Hlk : forall t, (exists op, i = IULock t op) -> t < ntrig st).
